@@ -117,6 +117,9 @@ async fn handler(req: HttpRequest) -> HttpResponse {
     if case.get("user_cl").and_then(|c| c.as_bool()).unwrap_or(false) {
         b.insert_header((header::CONTENT_LENGTH, n.to_string()));
     }
+    if case.get("no_chunking").and_then(|c| c.as_bool()).unwrap_or(false) {
+        b.no_chunking(n as u64);
+    }
     match case["kind"].as_str().unwrap_or("bytes") {
         "bytes" => b.body(data),
         "empty" => b.finish(),
@@ -129,7 +132,160 @@ async fn echo(body: web::Bytes) -> HttpResponse {
     HttpResponse::Ok().body(body)
 }
 
+/// What a byte-level HTTP/1.1 client sees of one response on a keep-alive connection: the framing the head announces and
+/// whether the body it delimits is complete (a body delimited by nothing, or by a length that never arrives, shows as a time-out).
+struct WireResp {
+    status: u16,
+    label: String,
+    framing: &'static str,
+    cl: i64,
+    body: Vec<u8>,
+    complete: bool,
+    timed_out: bool,
+}
+
+fn wire_exchange(addr: std::net::SocketAddr, accept: Option<&str>, case_hdr: &str) -> Option<WireResp> {
+    use std::time::{Duration, Instant};
+    let mut s = std::net::TcpStream::connect(addr).ok()?;
+    s.set_read_timeout(Some(Duration::from_millis(200))).ok()?;
+    let mut req = format!("GET /c HTTP/1.1\r\nhost: t\r\nx-case: {case_hdr}\r\n");
+    if let Some(a) = accept {
+        req.push_str(&format!("accept-encoding: {a}\r\n"));
+    }
+    req.push_str("\r\n");
+    s.write_all(req.as_bytes()).ok()?;
+    let mut buf: Vec<u8> = vec![];
+    let mut closed = false;
+    let mut last = Instant::now();
+    let idle = Duration::from_millis(1500);
+    let mut fill = |buf: &mut Vec<u8>, closed: &mut bool, last: &mut Instant| -> bool {
+        // returns false when nothing more will come (closed, or idle for too long)
+        let mut tmp = [0u8; 65536];
+        loop {
+            match s.read(&mut tmp) {
+                Ok(0) => {
+                    *closed = true;
+                    return false;
+                }
+                Ok(n) => {
+                    buf.extend_from_slice(&tmp[..n]);
+                    *last = Instant::now();
+                    return true;
+                }
+                Err(_) => {
+                    if last.elapsed() > idle {
+                        return false;
+                    }
+                }
+            }
+        }
+    };
+    let head_end = loop {
+        if let Some(p) = buf.windows(4).position(|w| w == b"\r\n\r\n") {
+            break p + 4;
+        }
+        if !fill(&mut buf, &mut closed, &mut last) {
+            return None;
+        }
+    };
+    let head = String::from_utf8_lossy(&buf[..head_end]).to_string();
+    let mut lines = head.split("\r\n");
+    let status: u16 = lines.next()?.split(' ').nth(1)?.parse().ok()?;
+    let (mut cl, mut chunked, mut label) = (-1i64, false, "identity".to_string());
+    for l in lines {
+        if let Some((n, v)) = l.split_once(':') {
+            let (n, v) = (n.trim().to_ascii_lowercase(), v.trim());
+            match n.as_str() {
+                "content-length" => cl = v.parse().unwrap_or(-2),
+                "transfer-encoding" => chunked = v.to_ascii_lowercase().contains("chunked"),
+                "content-encoding" => label = v.to_string(),
+                _ => {}
+            }
+        }
+    }
+    let mut rest = buf[head_end..].to_vec();
+    let mut body = vec![];
+    let (framing, complete, timed_out);
+    if chunked {
+        framing = "chunked";
+        let mut ok = false;
+        let mut to = false;
+        'outer: loop {
+            // chunk-size line
+            let eol = loop {
+                if let Some(p) = rest.windows(2).position(|w| w == b"\r\n") {
+                    break p;
+                }
+                if !fill(&mut rest, &mut closed, &mut last) {
+                    to = !closed;
+                    break 'outer;
+                }
+            };
+            let size = usize::from_str_radix(String::from_utf8_lossy(&rest[..eol]).split(';').next().unwrap_or("").trim(), 16).unwrap_or(usize::MAX);
+            if size == usize::MAX {
+                break;
+            }
+            rest.drain(..eol + 2);
+            while rest.len() < size + 2 {
+                if !fill(&mut rest, &mut closed, &mut last) {
+                    to = !closed;
+                    break 'outer;
+                }
+            }
+            if size == 0 {
+                ok = true;
+                break;
+            }
+            body.extend_from_slice(&rest[..size]);
+            rest.drain(..size + 2);
+        }
+        complete = ok;
+        timed_out = to;
+    } else if cl >= 0 {
+        framing = "cl";
+        while (rest.len() as i64) < cl {
+            if !fill(&mut rest, &mut closed, &mut last) {
+                break;
+            }
+        }
+        complete = rest.len() as i64 == cl;
+        timed_out = (rest.len() as i64) < cl && !closed;
+        body = rest;
+    } else if status == 204 || status == 304 || (100..200).contains(&status) {
+        framing = "none";
+        complete = true;
+        timed_out = false;
+    } else {
+        framing = "close";
+        while fill(&mut rest, &mut closed, &mut last) {}
+        complete = closed;
+        timed_out = !closed;
+        body = rest;
+    }
+    Some(WireResp { status, label, framing, cl, body, complete, timed_out })
+}
+
+fn start_wire_server() -> (std::net::SocketAddr, actix_web::dev::ServerHandle) {
+    let (tx, rx) = std::sync::mpsc::channel();
+    std::thread::spawn(move || {
+        let sys = actix_rt::System::new();
+        sys.block_on(async move {
+            let srv = actix_web::HttpServer::new(|| App::new().service(web::resource("/c").wrap(Compress::default()).to(handler)))
+                .workers(1)
+                .disable_signals()
+                .bind("127.0.0.1:0")
+                .expect("bind loopback");
+            let addr = srv.addrs()[0];
+            let srv = srv.run();
+            tx.send((addr, srv.handle())).unwrap();
+            let _ = srv.await;
+        })
+    });
+    rx.recv().expect("wire server")
+}
+
 pub fn replay(cases: &[Value], out: &mut TraceOut) {
+    let wire_srv = if cases.iter().any(|c| c["kind0"] == "wire") { Some(start_wire_server()) } else { None };
     let sys = actix_rt::System::new();
     sys.block_on(async {
         let app = test::init_service(
@@ -198,8 +354,27 @@ pub fn replay(cases: &[Value], out: &mut TraceOut) {
                     let body = test::read_body(res).await;
                     out.emit(json!({"ev":"reqbody","coding":coding,"n":n,"decoded_ok": ok && body.as_ref() == orig.as_slice()}));
                 }
+                "wire" => {
+                    // the same handler behind a real HTTP/1 server on loopback, read by a byte-level client
+                    let r = &case["resp"];
+                    let n = r["n"].as_u64().unwrap() as usize;
+                    let orig = if r["kind"] == "empty" { vec![] } else { content(n, r["content"].as_str().unwrap_or("text")) };
+                    let addr = wire_srv.as_ref().unwrap().0;
+                    match wire_exchange(addr, case.get("accept").and_then(|a| a.as_str()), &r.to_string()) {
+                        Some(w) => {
+                            // a status that cannot carry a body has nothing to compare
+                            let decoded_ok = w.framing == "none" || decode(&w.label, &w.body).map(|d| d == orig).unwrap_or(false);
+                            out.emit(json!({"ev":"wire","status":w.status,"label":w.label,"framing":w.framing,"cl":w.cl,"got":w.body.len(),
+                                            "complete":w.complete,"timed_out":w.timed_out,"decoded_ok":decoded_ok,"n":n}));
+                        }
+                        None => out.emit(json!({"ev":"wire","status":0,"label":"","framing":"none","cl":-1,"got":0,"complete":false,"timed_out":true,"decoded_ok":false,"n":n})),
+                    }
+                }
                 k => panic!("kind {k}"),
             }
         }
     });
+    if let Some((_, h)) = wire_srv {
+        let _ = sys.block_on(h.stop(false));
+    }
 }
